@@ -8,6 +8,19 @@ CLAIMED = {
          "Trusts go/ssa, the gosym interpreter (validated by native replay of solver models), cvc5/z3; cursor invariant (aligned, <= tempMappingAddr) is assumed for the step and shown preserved; sizes between 4 pages and 2^64-8192 for the mapping loops are outside the bound.", "7 C07"),
 }
 
+CLAIMED.update({
+ "C01": ("Bounded symbolic model checking of the real BitmapAllocator: one AllocFrame / FreeFrame step from an arbitrary state satisfying the representation invariant R (2-3 pools x 1-3 bitmap words, every word/counter/frame symbolic) - histories of any length follow by induction on R - plus the init lemma: the real bootMemAllocator + BitmapAllocator.init on a symbolic multiboot memory map establishes R with exactly the kernel-image and early-boot frames marked.",
+         "Trusts go/ssa, gosym (validated by native replay), cvc5/z3. R is assumed for the step lemmas and shown established by init and preserved by each step; the arithmetic fact popcount(OR of distinct one-hot masks)=count is a paper step. Bounds: <=3 pools, <=192 frames per pool in the step lemmas; init lemma: 1 (quick) / 2 (thorough) memory-map entries of <=130 frames, <=2 early allocations; kfmt.Printf stubbed (symbolic-only).", "7 C01"),
+ "C02": ("Bounded symbolic model checking of the real BootMemAllocator.AllocFrame: one allocation from an arbitrary valid allocator state over a symbolic memory map (2-3 entries, any address/length/type, unaligned and sub-page regions, kernel anywhere inside an available entry), plus replay determinism (k allocations, reset, k again).",
+         "Pre(bootalloc) assumed and shown preserved; out-of-memory completeness is deliberately not asserted (the property states one direction only). Map entries <= 130 frames, addresses < 2^52.", "7 C02"),
+ "C03": ("Same engine and state space as C01: init lemma (never crashes; totals agree with the bitmaps; exact marking), FreeFrame step (rejected frees change nothing, accepted free clears exactly one bit), AllocFrame step (thorough tier) and drain (exactly m successes then out-of-memory).",
+         "As C01. The quick tier leaves the AllocFrame step lemma to C01's check (same harness body); thorough runs it here too.", "7 C03"),
+ "C09": ("Lock-discipline monitor on the real AllocFrame/FreeFrame over the C01 state space: every access to the allocator's mutable shared state (bitmap words, per-pool freeCount, reservedPages, totalPages) happens while alloc.mutex is held, Acquire happens on a free lock (a second Acquire is reported as blocking forever), and the lock is free again on every return path. Together with C08 (the lock admits one holder) and the C01/C03 step lemmas this lifts sequential correctness to concurrent histories by reduction (argument in DESIGN.md, not machine-checked).",
+         "Sequential symbolic execution with a byte-range lock monitor; concurrency itself is covered by the C08 transition-system check plus the reduction argument; x86-TSO assumptions as in C08. Violations found by the monitor have no native oracle and are reported on the symbolic evidence alone.", "7 C09"),
+ "C10": ("Bounded symbolic model checking of the real multiboot decoder over a raw memory region with symbolic bytes and a symbolic accessible limit (any read past the block's own end is a violation): findTagByType (symbolic tag order/sizes), VisitMemRegions (entry size 24/32/40, every 32-bit type, early stop), GetFramebufferInfo/RGBColorInfo, VisitElfSections (symbolic string table), GetBootCmdLine (real strings.Fields/Split from the standard library's SSA against a reference splitter).",
+         "Well-formed blocks only (assumed layout); <=3 tags, <=3 sections, names <=3 bytes, command line <=5 ASCII bytes; block at a concrete 8-aligned address (A-ADDR).", "7 C10"),
+})
+
 NOT_APPLICABLE = {
  "C20": "FindRedirects is filepath.Walk + go/parser + ast.CommentMap + fmt over a source tree on disk; the inputs are directory trees and Go source text reached through OS calls, reflection and ~40k lines of standard library that the SSA executor cannot encode, and the non-reproducibility in question comes from runtime map-iteration randomisation, which is not a function of any solver-visible input. No bounded version is within reach of solver-based checking; see DESIGN.md 8.1.",
 }
